@@ -236,6 +236,11 @@ def worker(widx, seed, tier, stats):
     n = {'quick': 40, 'thorough': 1200}[tier]
     opts = gen.GenOpts(avoid=common.avoid_set(ID), big_sizes=False)
     runner.run_given(cases(opts), body, seed, n, stats)
+    if tier == 'thorough' and not stats.violations:
+        # coverage-guided campaign (atheris): even seeds start from canonical encodings, odd ones from nothing
+        v = common.run_atheris(ID, seed % 100000 + widx, 400000, 180, stats)
+        if v:
+            stats.violations.append({'what': 'atheris: ' + v['what'], 'case': v['details']})
 
 
 def run(tier, seed):
